@@ -17,7 +17,7 @@ The places where the close path can raise are explicit outcomes (`Out.raised`):
 while another close finished); `CancelledError` (the task awaiting `async_close` is cancelled at one of its
 suspension points); `RuntimeError` out of `Thread.join()` when sync `close()` runs on the callback thread of a
 browser it has to join (finding D30); `concurrent.futures.TimeoutError` out of `shutdown_loop` on a loop that
-another sync `close()` has just stopped (finding D32).
+another sync `close()` has just stopped (finding D34).
 No Mathlib (compiled into `zcdriver`). -/
 namespace Zc.Shutdown
 open Zc
@@ -27,7 +27,7 @@ inductive Exc where
   | notRunning | cancelled
   /-- `RuntimeError("cannot join current thread")` out of `ServiceBrowser.cancel()` (D30) -/
   | runtimeError
-  /-- `concurrent.futures.TimeoutError` out of `shutdown_loop()` (`_utils/asyncio.py:121-131`) on a stopped loop (D32) -/
+  /-- `concurrent.futures.TimeoutError` out of `shutdown_loop()` (`_utils/asyncio.py:121-131`) on a stopped loop (D34) -/
   | timeout
   deriving DecidableEq, Repr
 
@@ -94,6 +94,18 @@ def Close.isReturned (c : Close) : Bool := match c.stage with | .returned => tru
 
 def Close.isStopping (c : Close) : Bool := match c.stage with | .stopping => true | _ => false
 
+/-- a task suspended in `wait_for_future_set_or_timeout` (`Zeroconf.async_wait` between two probes, `ServiceInfo.async_wait` of a
+lookup): a future in the instance's set and a `call_later` handle that resolves it at the deadline -/
+inductive Wait where
+  /-- future unresolved, handle armed -/
+  | pending
+  /-- a notification (`async_notify_all`) has resolved the future and emptied the set; the task has not been resumed yet, so the
+  handle is **still armed** -/
+  | notified
+  /-- the handle has fired and resolved the future; the task has not been resumed yet, so the future is **still in the set** -/
+  | timedOut
+  deriving DecidableEq, Repr
+
 structure Host where
   /-- `Zeroconf.done` -/
   done : Bool
@@ -122,6 +134,8 @@ structure Host where
   loopThread : Bool := false
   /-- `self.loop.is_running()` -/
   loopRunning : Bool := true
+  /-- tasks suspended in `wait_for_future_set_or_timeout` -/
+  waits : List Wait := []
   deriving DecidableEq, Repr
 
 /-- API calls that need a running instance -/
@@ -133,8 +147,9 @@ inductive Api where
 inductive Block where
   /-- datagram arrives: immediate answers, answer groups queued, record updates; `defer`: it is a truncated query
   that is parked — for the address of timer `deferAt` if that exists (one more packet, timer re-armed), else for a new
-  address (new timer) -/
-  | recv (sends queued : Nat) (defer updates : Bool) (deferAt : Nat := 0)
+  address (new timer); `answersAt = some i`: it is an untruncated query from the address of timer `i`: `_respond_query`
+  cancels that timer, pops the packets deferred for the address and answers them together with this one -/
+  | recv (sends queued : Nat) (defer updates : Bool) (deferAt : Nat := 0) (answersAt : Option Nat := none)
   /-- aggregation-queue timer; `ready`: a group is due and is sent -/
   | outqFire (ready : Bool)
   /-- deferred-TC timer `i` fires: `_respond_query(None, addr, …)` pops the deferred packets and answers the assembled
@@ -187,6 +202,15 @@ inductive Block where
   | closeThreadsStop (i : Nat)
   /-- the task awaiting async close `i` is cancelled at the suspension point it is parked at -/
   | closeAbort (i : Nat)
+  /-- a task (a probing registration, a lookup) starts to wait: future into the set, timeout handle armed -/
+  | waitStart
+  /-- `async_notify_all()`: every future in the set is resolved, the set emptied — from a record update, and as the **last step of
+  every close** (`_shutdown_threads()` → `notify_all()` → `call_soon_threadsafe`), i.e. one loop iteration *after* the close returned -/
+  | notifyAll
+  /-- the timeout handle of wait `i` fires -/
+  | waitFire (i : Nat)
+  /-- the task of wait `i` is resumed (its future is resolved): it cancels the handle and takes the future out of the set -/
+  | waitResume (i : Nat)
   deriving DecidableEq, Repr
 
 /-- `async_send`: nothing leaves once `done` -/
@@ -222,8 +246,9 @@ def cancelJoins : Bool := Gen.Shutdown.thread_cancel_signals && Gen.Shutdown.thr
 browser's own: `cancel()` = sentinel + `_async_cancel` on the loop + `join()` — the thread delivers what was queued
 before the sentinel and ends — then `del self.browsers[listener]` -/
 def syncCancel (b : Browser) : Browser :=
-  { asyncCancel b with queued := if cancelJoins then 0 else b.queued,
-                       zcTracked := if Gen.Shutdown.remove_listener_forgets then false else b.zcTracked }
+  { (if Gen.Shutdown.thread_cancel_schedules_async_cancel then asyncCancel b else b) with
+      queued := if cancelJoins then 0 else b.queued,
+      zcTracked := if Gen.Shutdown.remove_listener_forgets then false else b.zcTracked }
 
 /-- what cancelling the browsers of `Zeroconf.browsers` lets out: the joined thread's remaining callbacks; and, for a
 browser whose `_async_cancel` already ran (only possible after D30 left it in `Zeroconf.browsers`), the failing
@@ -300,12 +325,23 @@ lists it.  (Before fix 25230c1 — finding D17 — it did not: `wakeRaises false
 def wakeRaises (suppressed running done : Bool) : Bool :=
   Gen.Shutdown.wait_for_start_raises_after running done && !suppressed
 
+/-- does resolving go through the done-guard `_set_future_none_if_not_done` (`if not fut.done(): fut.set_result(None)`)?
+`Future.set_result` on a finished future raises `InvalidStateError` — out of a timer / `call_soon` callback, i.e. into the loop -/
+def timerOnFinished : List Out :=
+  if Gen.Shutdown.waiter_timer_guarded && !Gen.Shutdown.waiter_guard_sets true then [] else [.loopError]
+
+def notifyOnFinished : List Out :=
+  if Gen.Shutdown.resolve_all_guarded && !Gen.Shutdown.waiter_guard_sets true then [] else [.loopError]
+
 /-- `none`: the block is not enabled in this state (it cannot occur) -/
 def step (h : Host) : Block → Option (Host × List Out)
-  | .recv sends queued defer updates deferAt =>
+  | .recv sends queued defer updates deferAt answersAt =>
     -- a closed transport delivers nothing
     if h.transportsClosed then none
-    else some ({ h with outq := h.outq + queued, tcs := if defer then deferOne h.tcs deferAt else h.tcs,
+    else some ({ h with outq := h.outq + queued,
+                        tcs := match answersAt with
+                          | some i => h.tcs.eraseIdx i
+                          | none => if defer then deferOne h.tcs deferAt else h.tcs,
                         browsers := enqueue h.browsers updates },
                gated h (List.replicate sends .send) ++ notify h updates)
   | .outqFire ready =>
@@ -446,6 +482,23 @@ def step (h : Host) : Block → Option (Host × List Out)
     | some ⟨false, .waitingStart⟩ | some ⟨false, .unregistering _⟩ | some ⟨false, .shutdown⟩ =>
       some (h.setStage i false .aborted, [.raised .cancelled])
     | _ => none
+  | .waitStart => some ({ h with waits := h.waits ++ [.pending] }, [])
+  | .notifyAll =>
+    -- pending futures are resolved; a future its own handle has already resolved is still in the set: the guard must leave it alone
+    some ({ h with waits := h.waits.map (fun w => match w with | .pending => .notified | w => w) },
+          if h.waits.contains .timedOut then notifyOnFinished else [])
+  | .waitFire i =>
+    match h.waits[i]? with
+    | some .pending => some ({ h with waits := h.waits.set i .timedOut }, [])
+    -- the notification got there first and the task has not been resumed yet: the handle fires on a finished future
+    | some .notified => some ({ h with waits := h.waits.eraseIdx i }, timerOnFinished)
+    | _ => none
+  | .waitResume i =>
+    match h.waits[i]? with
+    -- (`finally: handle.cancel()`, translated: were the call missing, the handle of a notified wait would stay armed)
+    | some .notified => some ({ h with waits := if Gen.Shutdown.waiter_cancels_handle then h.waits.eraseIdx i else h.waits }, [])
+    | some .timedOut => some ({ h with waits := h.waits.eraseIdx i }, [])
+    | _ => none
 
 def run (h : Host) : List Block → Option (Host × List Out)
   | [] => some (h, [])
@@ -489,7 +542,7 @@ def ZcInv (h : Host) : Prop := ∀ b ∈ h.browsers, b.zcTracked = true → b.ca
 instance (h : Host) : Decidable (ZcInv h) := by unfold ZcInv; infer_instance
 
 /-- a loop thread that has not been forgotten is still running its loop, and at most one sync close is about to stop it —
-what keeps `shutdown_loop` from timing out.  Broken only by overlapping sync closes (finding D32). -/
+what keeps `shutdown_loop` from timing out.  Broken only by overlapping sync closes (finding D34). -/
 def LoopInv' (loopThread loopRunning : Bool) (closes : List Close) : Prop :=
   (loopThread = true → loopRunning = true) ∧
   (∀ (i : Nat) (c : Close), closes[i]? = some c → c.stage = .stopping → loopRunning = true) ∧
@@ -497,7 +550,7 @@ def LoopInv' (loopThread loopRunning : Bool) (closes : List Close) : Prop :=
 
 def LoopInv (h : Host) : Prop := LoopInv' h.loopThread h.loopRunning h.closes
 
-/-- the D32 class: a sync close enters `_shutdown_threads()` while another one is between its `if not self._loop_thread`
+/-- the D34 class: a sync close enters `_shutdown_threads()` while another one is between its `if not self._loop_thread`
 test and `shutdown_loop()` -/
 def Block.overlapsStop (h : Host) : Block → Bool
   | .closeThreadsCheck _ => h.closes.any Close.isStopping
@@ -626,6 +679,37 @@ def accepts (k : Kind) (done tclosed rxClosed cleanup afterClose : Bool) (nsend 
       | _ => ncb = 0 || !afterClose   -- API-driven callbacks (browser start-up replay) only before close returns
     if out.contains .loopError then "reject:timer-without-packet"
     else if !sendOk then "reject:model-silent-but-sent" else if !cbOk then "reject:model-silent-but-called-back" else "ok"
+
+/-! ### the TC timers threaded through a real history
+
+`accepts` judges a block from the flags read off the real objects when it started; the list `tcs` — the listener's armed
+deferral timers with the number of packets each has to answer, the state `TcInv` and "no timer left behind raises" are about — is
+**threaded**: the harness reads `[len(_deferred[a]) for a in _timers]` off the real listeners before every block and before the
+next one, and the model's `step` must be able to take the one to the other (some choice of the block's free arguments). -/
+
+def sortNat (l : List Nat) : List Nat := l.mergeSort (· ≤ ·)
+
+/-- the model blocks an observed block of this kind may be, given the timers before it -/
+def tcCandidates (k : Kind) (before : List Nat) : List Block :=
+  match k with
+  | .recv =>
+    [.recv 0 0 false false 0 none] ++ (List.range (before.length + 1)).map (fun i => Block.recv 0 0 true false i none)
+      ++ (List.range before.length).map (fun i => Block.recv 0 0 false false 0 (some i))
+  | .tc => (List.range before.length).map (fun i => Block.tcFire 0 0 i)
+  | .outq => [.outqFire false]
+  | .sched => [.schedFire 0 0]
+  | .cleanup => [.cleanupFire false]
+  | .task => [.lookupStep 0 false]
+
+/-- does the model explain how the armed TC timers changed over one observed block?  (multisets: the order of a dict of
+addresses is not compared) -/
+def explainsTcs (k : Kind) (done : Bool) (before after : List Nat) : String :=
+  let h : Host := { hostOfFlags done false true false 1 with tcs := before, lookups := 1 }
+  if (tcCandidates k before).any (fun b =>
+      match step h b with
+      | some (h', out) => sortNat h'.tcs == sortNat after && !out.contains .loopError
+      | none => false)
+  then "ok" else "reject:tcs"
 
 structure Flags where
   done : Bool
